@@ -39,6 +39,7 @@ from __future__ import annotations
 
 import ast
 import contextlib
+import importlib
 import io
 import itertools
 import math
@@ -2324,6 +2325,43 @@ def ob_tune_grid(name, side):
     return fn
 
 
+def ob_tune_acceptance_rate_option():
+    """AdaptiveStepSize(use_acceptance_rate=True) — the documented option that tunes on the operator's OWN running acceptance rate: in a
+    mixture the `sample` argument of tune/learn is the global iteration (larger than the operator's own call count).  With every own proposal
+    accepted (own rate 1 > target) the step size never decreases, with every own proposal rejected it never increases, whatever `sample` is."""
+    def body():
+        am = importlib.import_module("torchtree.inference.hmc.adaptation")
+        from torchtree.inference.hmc.integrator import LeapfrogIntegrator
+        n = 0
+        for target in (0.234, 0.8):
+            for stride, offset in ((1, 0), (2, 5), (7, 100)):
+                for accepted, name in ((True, "accepted"), (False, "rejected")):
+                    integ = LeapfrogIntegrator("lf", 3, 0.1)
+                    a = am.AdaptiveStepSize("a", integ, target, use_acceptance_rate=True)
+                    prev = float(integ.step_size)
+                    for k in range(1, 41):
+                        a.learn(torch.tensor(1.0 if accepted else 0.0, dtype=torch.float64), offset + stride * k, accepted)
+                        cur = float(integ.step_size)
+                        n += 1
+                        wrong = cur < prev - 1e-15 if accepted else cur > prev + 1e-15
+                        if wrong:
+                            args = {"target": target, "stride": stride, "offset": offset, "accepted": accepted, "call": k}
+                            raise Refuted("AdaptiveStepSize(use_acceptance_rate=True), target %.3g: own proposals all %s (own rate %s target) but call %d with global "
+                                          "iteration %d moved the step size from %.6g to %.6g" % (target, name, "above" if accepted else "below", k, offset + stride * k, prev, cur),
+                                          witness=args, replay={"kind": "custom", "contract": "C15", "func": "replay_tune_acceptance_rate_option", "args": args}, confirmed=True)
+                        prev = cur
+        return {"backend": "concrete", "cases": n, "statement": "%d learn() calls: step size monotone in the direction of (own acceptance rate - target), independent of the global iteration number" % n}
+    return body
+
+
+def replay_tune_acceptance_rate_option(args):
+    try:
+        ob_tune_acceptance_rate_option()()
+    except Refuted as e:
+        return False, e.detail
+    return True, "held"
+
+
 def ob_tune_disabled():
     n = 0
     for name in ("ScalerOperator", "SlidingWindowOperator", "DirichletOperator", "GMRFPiecewiseCoalescentBlockUpdatingOperator", "HMCOperator"):
@@ -2453,6 +2491,9 @@ def obligations(tier, seed):
             obs.append(scenario_ob("C16", "C15.hastings.hmc.mass_invariant[d=2,%s,%s]" % (rank, how), "V", "scn_mass_invariant", (2, rank, how),
                                    clause="Hastings ratio of the HMC operator uses the inverse of the mass matrix its momentum is drawn with, after every way a run changes the mass matrix",
                                    funcs=F, seed=seed, fns=_c16._fns(2)))
+    for rank in ("diag", "dense"):
+        o_ = _c16.ob_mass_invariant_adaptor(rank)
+        obs.append(Ob("C15.hastings.hmc.mass_invariant.adaptor[%s]" % rank, "B", o_.fn, clause=o_.clause, funcs=F, timeout=120))
     # logged rows / whole runs
     L = "every logged row is self-consistent"
     iters = 3000 if thorough else 300
@@ -2491,6 +2532,8 @@ def obligations(tier, seed):
             obs.append(Ob("C15.tune.identity[%s]" % name, "U", (lambda name=name: prove_tune_identity(name)),
                           clause="set_adaptable_parameter(adaptable_parameter) is the identity", funcs=F, timeout=120))
     for side in ("above", "below"):
+        if side == "above":
+            obs.append(Ob("C15.tune.direction[AdaptiveStepSize,use_acceptance_rate=True]", "B", ob_tune_acceptance_rate_option(), clause=T, funcs=F, timeout=120))
         obs.append(Ob("C15.tune.direction[DualAveragingStepSize,%s].z3" % side, "U", (lambda side=side: prove_dual_direction(side)), clause=T, funcs=F, timeout=300))
     obs.append(Ob("C15.tune.monotone_in_acceptance[DualAveragingStepSize]", "U", prove_dual_monotone, clause=T, funcs=F, timeout=300))
     obs.append(Ob("C15.tune.disabled", "U", ob_tune_disabled, clause="adaptation off: tune changes nothing", funcs=F, timeout=120))
